@@ -155,6 +155,16 @@ mod verif_methods {
 		let x = letter(); kani::assume(!(x == 0.0 && x.is_sign_negative())); h = [h[1], h[2], x]; let out = m.next(&x); assert!(out == med3(h[0], h[1], h[2]));
 	}
 
+	// window 1: the median IS the input, bit for bit (both zeros included) - the one place where the sign of a zero is pinned down
+	#[kani::proof]
+	#[kani::unwind(4)]
+	fn vk_smm_l1_bits() {
+		let x0 = letter();
+		let mut m = SMM::new(1, &x0).unwrap();
+		let x = letter(); let out = m.next(&x); assert!(out.to_bits() == x.to_bits());
+		let x = letter(); let out = m.next(&x); assert!(out.to_bits() == x.to_bits());
+		let x = letter(); let out = m.next(&x); assert!(out.to_bits() == x.to_bits());
+	}
 	// a cheaper witness for the sorted-buffer bookkeeping: window 3, five inputs over the four values {1, 2, 3, 5} (duplicates, no zeros)
 	fn quad() -> ValueType {
 		let k: u8 = kani::any();
